@@ -207,6 +207,36 @@ func (c *Conn) findEmbargo(id embargoID) *embargo {
 	return c.embargoes[id] // might be nil
 }
 
+// failEmbargo gives up on the embargo with the given ID because its
+// Disembargo message could not be sent: the embargoed client resolves to
+// an error, so that calls on it fail instead of waiting for a loopback
+// that will never come.  The caller must be holding onto the sender lock
+// but not c.mu.
+func (c *Conn) failEmbargo(id embargoID, err error) {
+	c.mu.Lock()
+	e := c.findEmbargo(id)
+	if e != nil {
+		c.embargoes[id] = nil
+		c.embargoID.remove(uint32(id))
+	}
+	c.mu.Unlock()
+	if e != nil {
+		e.fail(err)
+	}
+}
+
+// fail lifts the embargo by replacing the embargoed capability with an
+// error.  Like lift, it must be called at most once, and not after lift.
+func (e *embargo) fail(err error) {
+	e.mu.Lock()
+	if !e.down {
+		e.c.Release()
+	}
+	e.c = capnp.ErrorClient(err)
+	e.mu.Unlock()
+	e.lift()
+}
+
 // lift disembargoes the client.  It must be called only once.
 func (e *embargo) lift() {
 	close(e.lifted)
@@ -249,8 +279,9 @@ func (e *embargo) Brand() capnp.Brand {
 func (e *embargo) Shutdown() {
 	e.mu.Lock()
 	e.down = true
+	c := e.c
 	e.mu.Unlock()
-	e.c.Release()
+	c.Release()
 }
 
 // senderLoopback holds the salient information for a sender-loopback
